@@ -22,6 +22,7 @@ func runC12(c *Ctx) {
 	c.Rule("R12.1", 3, "associativity constant matches the directive keyword")
 	c.Rule("R12.2", 10, "handles are complete, in order, without aliasing")
 	c.Rule("R12.3", 3, "levels are recorded in source order: append only, returned untouched")
+	c.Rule("R12.5", 1, "a rule handle finds the synthesised non-terminals of its rule: the memo's hash agrees with its equality")
 	c.Rule("R12.4", 4, "handle productions are the grammar's own production objects")
 
 	c.mute = map[string]bool{"R4.2": true}
@@ -35,6 +36,7 @@ func runC12(c *Ctx) {
 		return
 	}
 	checkAssocConstants(c, ev, "R12.1")
+	checkMemoHashEq(c, "R12.5", sp)
 	info := sp.TypesInfo
 
 	var idxs []int
